@@ -114,6 +114,11 @@ def cases(tier, seed):
                            "where": where}
     for k in ["source_noargs", "source_first_int", "source_first_none", "seq_empty"]:
         yield {"k": k}
+    # a run-only element before a fill element cannot be converted (only callables can be
+    # filled through): every container form must reject the arguments with LenaTypeError
+    for fill_el in ["frseq", "fcseq", "fradapter", "sum", "nested_split_fc"]:
+        for form in ["split_tuple", "fcseq_explicit", "frseq_explicit", "split_tuple_after_call"]:
+            yield {"k": "bad_fill_branch", "el": fill_el, "form": form}
 
 
 # ------------------------------------------------------------------ oracle
@@ -521,6 +526,41 @@ def run_case(r, obs):
             obs.fail("bad-argument-accepted:" + where,
                      "ill-typed argument %r at %s accepted at construction: %r"
                      % (r["bad"], where, type(made).__name__))
+    elif k == "bad_fill_branch":
+        import lena.math
+        obs.nontrivial = True
+
+        def fr():
+            return lena.core.FillRequest(lena.flow.StoreFilled(), bufsize=2, reset=True,
+                                         buffer_input=True)
+        fill_el = {"frseq": lambda: lena.core.FillRequestSeq(fr(), bufsize=1, reset=False,
+                                                             buffer_input=True),
+                   "fcseq": lambda: lena.core.FillComputeSeq(lena.math.Sum()),
+                   "fradapter": fr, "sum": lena.math.Sum,
+                   "nested_split_fc": lambda: lena.core.Split([lena.math.Sum(),
+                                                               lena.math.Sum()])}[r["el"]]()
+        run_only = lena.flow.Reverse()
+        form = r["form"]
+        try:
+            if form == "split_tuple":
+                made = lena.core.Split([(run_only, fill_el)])
+            elif form == "split_tuple_after_call":
+                made = lena.core.Split([(gen.func("inc"),), (gen.func("inc"), run_only, fill_el)])
+            elif form == "fcseq_explicit":
+                made = lena.core.FillComputeSeq(run_only, fill_el)
+            else:
+                made = lena.core.FillRequestSeq(run_only, fill_el, bufsize=1, reset=False,
+                                                buffer_input=True)
+        except lena.core.LenaTypeError:
+            obs.count("rejected_at_construction")
+        except Exception as e:  # pylint: disable=broad-except
+            obs.fail("bad-argument-wrong-exception:run-only-element-before-" + r["el"],
+                     "a run-only element before a %s (%s) raised %r instead of LenaTypeError"
+                     % (r["el"], form, e))
+        else:
+            obs.fail("bad-argument-accepted:run-only-element-before-" + r["el"],
+                     "a run-only element before a %s (%s) was accepted: %s"
+                     % (r["el"], form, type(made).__name__))
     elif k == "source_noargs":
         obs.nontrivial = True
         try:
